@@ -269,6 +269,67 @@ impl<'a, 'tcx> Cx<'a, 'tcx> {
         None
     }
 
+    fn dump_body(&self, out: &mut String) {
+        let body = self.body;
+        let cx = self;
+        let _ = write!(out, ",\"argc\":{}", body.arg_count);
+        // locals
+        out.push_str(",\"locals\":[");
+        for (i, d) in body.local_decls.iter().enumerate() {
+            if i > 0 {
+                out.push(',');
+            }
+            out.push_str(&cx.ty(d.ty));
+        }
+        out.push_str("],\"names\":{");
+        let mut seen = std::collections::HashSet::new();
+        let mut firstn = true;
+        for v in body.var_debug_info.iter() {
+            if let VarDebugInfoContents::Place(p) = &v.value {
+                let n = v.name.to_string();
+                let key = format!("{}@{}", n, p.local.as_u32());
+                if !seen.insert(key) {
+                    continue;
+                }
+                if !firstn {
+                    out.push(',');
+                }
+                firstn = false;
+                let nm = if p.projection.is_empty() {
+                    format!("{}", p.local.as_u32())
+                } else {
+                    cx.place(p)
+                };
+                // key: local index or place json; value: source name. Several locals may share a name.
+                let _ = write!(out, "{}:{}", js(&nm), js(&n));
+            }
+        }
+        out.push_str("},\"blocks\":[");
+        for (bi, bb) in body.basic_blocks.iter_enumerated() {
+            if bi.as_u32() > 0 {
+                out.push(',');
+            }
+            out.push_str("{\"s\":[");
+            let mut f = true;
+            for st in bb.statements.iter() {
+                if let Some(s) = cx.stmt(st) {
+                    if !f {
+                        out.push(',');
+                    }
+                    f = false;
+                    out.push_str(&s);
+                }
+            }
+            out.push_str("],\"t\":");
+            out.push_str(&cx.term(bb.terminator()));
+            if bb.is_cleanup {
+                out.push_str(",\"cu\":1");
+            }
+            out.push('}');
+        }
+        out.push_str("]");
+    }
+
     fn operand(&self, op: &Operand<'tcx>) -> String {
         match op {
             Operand::Copy(p) => format!("{{\"p\":{}}}", self.place(p)),
@@ -544,6 +605,43 @@ fn bytes_of<'tcx>(tcx: TyCtxt<'tcx>, val: ConstValue, inner: Ty<'tcx>) -> Option
     use rustc_middle::mir::interpret::{GlobalAlloc, Scalar};
     match val {
         ConstValue::Slice { .. } => val.try_get_slice_bytes_for_diagnostics(tcx),
+        ConstValue::Indirect { alloc_id, offset } => {
+            // a wide pointer (&[u8] / &str) or thin pointer (&[u8; N]) stored in memory
+            let a = match tcx.try_get_global_alloc(alloc_id)? {
+                GlobalAlloc::Memory(a) => a.inner(),
+                _ => return None,
+            };
+            let off = offset.bytes() as usize;
+            if off + 8 > a.len() {
+                return None;
+            }
+            let prov = a.provenance().get_ptr(offset)?;
+            let raw = a.inspect_with_uninit_and_ptr_outside_interpreter(off..off + 8);
+            let mut b8 = [0u8; 8];
+            b8.copy_from_slice(raw);
+            let poff = u64::from_le_bytes(b8) as usize;
+            let n = match inner.kind() {
+                ty::Array(_, len) => len.try_to_target_usize(tcx)? as usize,
+                _ => {
+                    if off + 16 > a.len() {
+                        return None;
+                    }
+                    let raw = a.inspect_with_uninit_and_ptr_outside_interpreter(off + 8..off + 16);
+                    b8.copy_from_slice(raw);
+                    u64::from_le_bytes(b8) as usize
+                }
+            };
+            match tcx.try_get_global_alloc(prov.alloc_id())? {
+                GlobalAlloc::Memory(t) => {
+                    let t = t.inner();
+                    if poff + n > t.len() {
+                        return None;
+                    }
+                    Some(t.inspect_with_uninit_and_ptr_outside_interpreter(poff..poff + n))
+                }
+                _ => None,
+            }
+        }
         ConstValue::Scalar(Scalar::Ptr(ptr, _)) => {
             let n = match inner.kind() {
                 ty::Array(_, len) => len.try_to_target_usize(tcx)? as usize,
@@ -636,62 +734,22 @@ fn dump<'tcx>(tcx: TyCtxt<'tcx>, krate: &str) -> String {
                 let _ = write!(out, ",\"self_ty\":{}", js(&format!("{}", st)));
             }
         }
-        let _ = write!(out, ",\"argc\":{}", body.arg_count);
-        // locals
-        out.push_str(",\"locals\":[");
-        for (i, d) in body.local_decls.iter().enumerate() {
-            if i > 0 {
-                out.push(',');
-            }
-            out.push_str(&cx.ty(d.ty));
-        }
-        out.push_str("],\"names\":{");
-        let mut seen = std::collections::HashSet::new();
-        let mut firstn = true;
-        for v in body.var_debug_info.iter() {
-            if let VarDebugInfoContents::Place(p) = &v.value {
-                let n = v.name.to_string();
-                let key = format!("{}@{}", n, p.local.as_u32());
-                if !seen.insert(key) {
-                    continue;
-                }
-                if !firstn {
-                    out.push(',');
-                }
-                firstn = false;
-                let nm = if p.projection.is_empty() {
-                    format!("{}", p.local.as_u32())
-                } else {
-                    cx.place(p)
-                };
-                // key: local index or place json; value: source name. Several locals may share a name.
-                let _ = write!(out, "{}:{}", js(&nm), js(&n));
-            }
-        }
-        out.push_str("},\"blocks\":[");
-        for (bi, bb) in body.basic_blocks.iter_enumerated() {
-            if bi.as_u32() > 0 {
-                out.push(',');
-            }
-            out.push_str("{\"s\":[");
-            let mut f = true;
-            for st in bb.statements.iter() {
-                if let Some(s) = cx.stmt(st) {
-                    if !f {
-                        out.push(',');
-                    }
-                    f = false;
-                    out.push_str(&s);
-                }
-            }
-            out.push_str("],\"t\":");
-            out.push_str(&cx.term(bb.terminator()));
-            if bb.is_cleanup {
-                out.push_str(",\"cu\":1");
-            }
+        cx.dump_body(&mut out);
+        out.push('}');
+        // promoted constants of this function (tables such as `&[(A, X), (B, Y)]` live here)
+        for (pi, pb) in tcx.promoted_mir(did).iter_enumerated() {
+            let pcx = Cx { tcx, body: pb, env };
+            let _ = write!(
+                out,
+                ",\n{{\"name\":{},\"file\":{},\"line\":{},\"kind\":\"promoted\",\"root\":{}",
+                js(&format!("{}::{{promoted#{}}}", path(tcx, did), pi.as_u32())),
+                js(&file),
+                loc.line,
+                js(&path(tcx, did))
+            );
+            pcx.dump_body(&mut out);
             out.push('}');
         }
-        out.push_str("]}");
     }
     out.push_str("\n],\"consts\":[");
     out.push_str(&consts.join(",\n"));
